@@ -141,6 +141,11 @@ func runC01(c *Ctx) {
 		c.Check(ok, "R01f", "Stdin.WriteTo:delegates", fd.Pos(), "(*Stdin).WriteTo delegates to stdio.WriteTo(stdin, w)")
 	}
 
+	c.Rule("R01i", "(*Stdin).ReadFrom writes p[:i] of every Read into the stream before it honours io.EOF from the source (an io.Reader may return data together with EOF): between r.Read(p) and stdin.Write(p[:i]) only exits whose condition excludes io.EOF are allowed, and the written slice is p[:i] of that Read")
+	if fd, _ := c.MustFunc("R01i", streamsPkg, "Stdin", "ReadFrom"); fd != nil {
+		c.checkReadFrom(info, fd)
+	}
+
 	// ------------------------------------------------------------ R01g writer count
 	c.Rule("R01g", "writer-count protocol: Stdin.dependents changes only through atomic.AddInt32 by +1 in Open and by -1 in Close; nothing else stores it")
 	c.checkDependents(pk.TypesInfo, pk.Syntax)
@@ -917,17 +922,33 @@ func (c *Ctx) checkBackPressure(info *types.Info, fd *ast.FuncDecl) {
 	// atoms over resolved operands: LT = len(buffer) < max ; Z = max == 0
 	// Evaluate the condition on concrete small integer models instead of
 	// matching syntax: l in 0..3, m in 0..3.
+	var pLen int64 // model value of len(<parameter>)
 	var evalInt func(e ast.Expr, l, m int64) (int64, bool)
 	evalInt = func(e ast.Expr, l, m int64) (int64, bool) {
 		e = defs.resolve1(info, e)
 		if v, ok := constInt(info, e); ok {
 			return v, true
 		}
-		if call, ok := isBuiltinCall(info, e, "len"); ok && len(call.Args) == 1 && isField(info, call.Args[0], stdinT, "buffer") {
-			return l, true
+		if call, ok := isBuiltinCall(info, e, "len"); ok && len(call.Args) == 1 {
+			if isField(info, call.Args[0], stdinT, "buffer") {
+				return l, true
+			}
+			if id, ok := unparen(call.Args[0]).(*ast.Ident); ok && isParam(info, fd, id) {
+				return pLen, true
+			}
 		}
 		if isField(info, e, stdinT, "max") {
 			return m, true
+		}
+		if b, ok := e.(*ast.BinaryExpr); ok && (b.Op == token.ADD || b.Op == token.SUB) {
+			x, ok1 := evalInt(b.X, l, m)
+			y, ok2 := evalInt(b.Y, l, m)
+			if ok1 && ok2 {
+				if b.Op == token.ADD {
+					return x + y, true
+				}
+				return x - y, true
+			}
 		}
 		return 0, false
 	}
@@ -958,15 +979,17 @@ func (c *Ctx) checkBackPressure(info *types.Info, fd *ast.FuncDecl) {
 		return false
 	}
 	bad := ""
-	for l := int64(0); l <= 3; l++ {
-		for m := int64(0); m <= 3; m++ {
-			exit := evalB(cond, l, m)
-			if negate {
-				exit = !exit
-			}
-			must := l < m || m == 0
-			if must && !exit {
-				bad = "len(buffer)=" + itoa(int(l)) + " max=" + itoa(int(m)) + ": writer keeps waiting although the pipe has room / is unbounded"
+	for pLen = 1; pLen <= 4; pLen++ {
+		for l := int64(0); l <= 3; l++ {
+			for m := int64(0); m <= 3; m++ {
+				exit := evalB(cond, l, m)
+				if negate {
+					exit = !exit
+				}
+				must := l < m || m == 0
+				if must && !exit {
+					bad = "len(buffer)=" + itoa(int(l)) + " max=" + itoa(int(m)) + " len(p)=" + itoa(int(pLen)) + ": the writer keeps waiting although the pipe has room / is unbounded (a write larger than the limit would never proceed)"
+				}
 			}
 		}
 	}
@@ -974,7 +997,7 @@ func (c *Ctx) checkBackPressure(info *types.Info, fd *ast.FuncDecl) {
 		c.Undecided("R01e", "Write:backpressure", cond.Pos(), "leaf %q of the exit condition is not an integer comparison over len(buffer), max and constants", undec)
 		return
 	}
-	c.Check(bad == "", "R01e", "Write:backpressure", cond.Pos(), "exit condition %s holds whenever len(buffer)<max or max==0 (checked on all l,m in 0..3) %s", c.src(cond), bad)
+	c.Check(bad == "", "R01e", "Write:backpressure", cond.Pos(), "exit condition %s holds whenever len(buffer)<max or max==0 (checked on all len(buffer),max in 0..3 and len(p) in 1..4) %s", c.src(cond), bad)
 }
 
 func (c *Ctx) checkWriteTo(info *types.Info, fd *ast.FuncDecl) {
@@ -1178,4 +1201,107 @@ func (c *Ctx) checkTeeDup(info *types.Info, fd *ast.FuncDecl, name string) {
 		}
 	}
 	c.Check(sec && prim, "R01h", "Tee."+name+":both", fd.Pos(), "Tee.%s writes the parameter to the secondary stream and returns primary.%s(parameter) (secondary=%v primary-returned=%v)", name, name, sec, prim)
+}
+
+func (c *Ctx) checkReadFrom(info *types.Info, fd *ast.FuncDecl) {
+	// locate the statement list holding both the Read and the Write
+	var list []ast.Stmt
+	var readIdx, writeIdx = -1, -1
+	var bufObj, nObj, errObj types.Object
+	ast.Inspect(fd.Body, func(nd ast.Node) bool {
+		var l []ast.Stmt
+		switch b := nd.(type) {
+		case *ast.BlockStmt:
+			l = b.List
+		case *ast.CaseClause:
+			l = b.Body
+		case *ast.CommClause:
+			l = b.Body
+		default:
+			return true
+		}
+		ri, wi := -1, -1
+		var bo, no, eo types.Object
+		for k, s := range l {
+			as, ok := s.(*ast.AssignStmt)
+			if !ok || len(as.Rhs) != 1 || len(as.Lhs) != 2 {
+				continue
+			}
+			call, ok := as.Rhs[0].(*ast.CallExpr)
+			if !ok || len(call.Args) != 1 {
+				continue
+			}
+			se, ok := call.Fun.(*ast.SelectorExpr)
+			if !ok {
+				continue
+			}
+			if se.Sel.Name == "Read" && ri < 0 {
+				if id, ok := call.Args[0].(*ast.Ident); ok {
+					bo = info.ObjectOf(id)
+				}
+				if id, ok := as.Lhs[0].(*ast.Ident); ok {
+					no = info.ObjectOf(id)
+				}
+				if id, ok := as.Lhs[1].(*ast.Ident); ok {
+					eo = info.ObjectOf(id)
+				}
+				ri = k
+			}
+			if se.Sel.Name == "Write" && ri >= 0 && wi < 0 && selPath(se.X) == recvVar(fd) {
+				wi = k
+			}
+		}
+		if ri >= 0 && wi > ri {
+			list, readIdx, writeIdx, bufObj, nObj, errObj = l, ri, wi, bo, no, eo
+		}
+		return true
+	})
+	if list == nil {
+		c.Viol("R01i", "ReadFrom:read-then-write", fd.Pos(), "ReadFrom has no statement list with r.Read(p) followed by stdin.Write(...): bytes read from the source are not forwarded")
+		return
+	}
+	// written slice is p[:i]
+	wcall := list[writeIdx].(*ast.AssignStmt).Rhs[0].(*ast.CallExpr)
+	arg, ok := unparen(wcall.Args[0]).(*ast.SliceExpr)
+	good := ok && arg.Low == nil && arg.High != nil
+	if good {
+		x, ok1 := arg.X.(*ast.Ident)
+		h, ok2 := arg.High.(*ast.Ident)
+		good = ok1 && ok2 && info.ObjectOf(x) == bufObj && info.ObjectOf(h) == nObj
+	}
+	c.Check(good, "R01i", "ReadFrom:forward-slice", wcall.Pos(), "stdin.Write receives p[:i] of the preceding Read (got %s)", c.src(wcall.Args[0]))
+	okExits := true
+	var badPos token.Pos = list[readIdx].Pos()
+	for _, s := range list[readIdx+1 : writeIdx] {
+		is, isIf := s.(*ast.IfStmt)
+		if !isIf {
+			if _, isAssign := s.(*ast.AssignStmt); isAssign {
+				continue
+			}
+			okExits = false
+			badPos = s.Pos()
+			continue
+		}
+		if !terminates(info, is.Body.List) {
+			continue
+		}
+		// the exit condition must exclude io.EOF: facts(cond true) contain err != io.EOF
+		excl := false
+		for _, f := range factsOf([]Guard{{Cond: is.Cond}}) {
+			if b, isB := unparen(f.E).(*ast.BinaryExpr); isB && (b.Op == token.NEQ) == f.True && (b.Op == token.NEQ || b.Op == token.EQL) {
+				x, y := unparen(b.X), unparen(b.Y)
+				if isPkgObj(info, x, "io", "EOF") {
+					x, y = y, x
+				}
+				if id, isId := x.(*ast.Ident); isId && info.ObjectOf(id) == errObj && isPkgObj(info, y, "io", "EOF") {
+					excl = true
+				}
+			}
+		}
+		if !excl {
+			okExits = false
+			badPos = is.Pos()
+		}
+	}
+	c.Check(okExits, "R01i", "ReadFrom:eof-after-write", badPos, "between r.Read(p) and stdin.Write(p[:i]) every exit excludes io.EOF — data returned together with EOF is written before the copy ends (otherwise the final chunk is lost)")
 }
